@@ -937,14 +937,6 @@ def classify(build, config, phase, e, params=None):
     fr = frames_of(e)
     names = [getattr(f.f_code, "co_qualname", f.f_code.co_name) for f in fr]
     msg = str(e)
-    # 2. repeat with repeats == 0: ZeroDivisionError in the key function
-    if isinstance(e, ZeroDivisionError) and phase == "execute":
-        for f in fr:
-            q = getattr(f.f_code, "co_qualname", "")
-            if q in ("repeat.<locals>.back_key_function", "_repeat") and f.f_locals.get("repeats") == 0 \
-                    and f.f_code.co_filename.endswith("manipulation_functions.py"):
-                return "repeat-zero"
-        return None
     # 3. zero chunk size / split_every zero: ZeroDivisionError at build
     if isinstance(e, ZeroDivisionError) and phase == "build":
         for f in fr:
@@ -988,15 +980,11 @@ def classify(build, config, phase, e, params=None):
     if qual == "clip" and isinstance(e2, TypeError) and "a_max" in msg2 and len(cfg.num_input_blocks) == 2:
         return "clip-min-only"
     if ((isinstance(e2, ValueError) and any(w in msg2 for w in ("broadcast", "shape-mismatch", "mismatch in its core dimension")))
-            or (qual == "_read_stack_chunk" and shape_err)) and qual not in ("qr", "_repeat"):
+            or (qual == "_read_stack_chunk" and shape_err)) and qual not in ("qr", "_repeat"):  # noqa: E129
         # unify_chunks asked for a rechunk of a zero-size operand, which `_rechunk_plan` skips: blocks stay misaligned
         geo = [chunks_of(p) for p in cfg.reads_map.values()]
         if any(0 in shp for _, shp in geo) and len(geo) >= 2:
             return "empty-operands-unaligned"
-    if qual == "_repeat" and shape_err:
-        kw = getattr(cfg.function, "keywords", {}) or {}
-        if isinstance(kw.get("axis"), int) and kw["axis"] < 0 and kw.get("repeats", 0) >= 1:
-            return "repeat-negative-axis"
     if isinstance(e2, KeyError) and params.get("family") == "map_blocks_late_contraction":
         k = e2.args[0] if e2.args else None
         if isinstance(k, tuple) and params.get("first_has_contracted") is False and params.get("later_has_contracted") is True:
@@ -1222,6 +1210,12 @@ def oracle_regressions(ctx):
         ("refused", "stack-shapes", lambda: xp.stack([arr([2], [2]), arr([3], [3])]), None),
         ("refused", "qr-short-row", lambda: list(xp.linalg.qr(arr([6, 4], [2, 4], "float64"))), None),
         ("refused", "qr-short-row", lambda: list(xp.linalg.qr(arr([2, 4], [2, 4], "float64"))), None),
+        # fix cfb5bf3 (repeat)
+        ("done", "repeat-zero", lambda: xp.repeat(arr([4], [2]), 0), np.repeat(np.arange(4), 0)),
+        ("done", "repeat-zero", lambda: xp.repeat(arr([5, 5], [5, 4]), 0, axis=-2), np.repeat(np.arange(25).reshape(5, 5), 0, axis=-2)),
+        ("done", "repeat-negative-axis", lambda: xp.repeat(arr([2, 4], [1, 1]), 3, axis=-2), np.repeat(np.arange(8).reshape(2, 4), 3, axis=-2)),
+        ("done", "repeat-negative-axis", lambda: xp.repeat(arr([4], [2]), 2, axis=-1), np.repeat(np.arange(4), 2)),
+        ("refused", "repeat-negative-repeats", lambda: xp.repeat(arr([4], [2]), -1), None),
     ]
     for want, label, build, expect in more:
         for cname in ("default", "off"):
@@ -1237,7 +1231,7 @@ def oracle_regressions(ctx):
                 warnings.simplefilter("ignore")
                 try:
                     val = build().compute()
-                    if not np.allclose(val, expect):
+                    if np.shape(val) != np.shape(expect) or not np.allclose(val, expect):
                         ctx.fail("repaired op (%s) completes with wrong values %s" % (label, np.asarray(val).tolist()), dict(case={"op": label}))
                 except Exception as ee:  # noqa: BLE001
                     ctx.fail("repaired op (%s) fails: %r" % (label, ee), dict(case={"op": label}))
@@ -1265,8 +1259,6 @@ def witness_corpus():
     return [
         ("legacy-fuse-stream", "simple", lambda: xp.sum(xp.negative(arr([4], [4], "float64"))), {}),
         ("map-blocks-late-contraction", "default", late_contraction, mb),
-        ("repeat-zero", "default", lambda: xp.repeat(arr([4], [2]), 0), {}),
-        ("repeat-negative-axis", "default", lambda: xp.repeat(arr([2, 4], [1, 1]), 3, axis=-2), {}),
         ("clip-min-only", "default", lambda: xp.clip(arr([4], [2]), min=1), {}),
         ("empty-operands-unaligned", "default",
          lambda: xp.add(xp.asarray(np.zeros((4, 0)), chunks=(3, 1), spec=spec()), xp.asarray(np.zeros((4, 0)), chunks=(4, 1), spec=spec())), {}),
